@@ -162,8 +162,10 @@ void reb_simulation_step(struct reb_simulation* const r){
     // Check for root crossings.
     PROFILING_START()
     reb_boundary_check(r);     
-    if (r->tree_needs_update){
-        // Update tree (this will remove particles which left the box)
+    if (r->tree_needs_update || r->gravity==REB_GRAVITY_TREE || r->collision==REB_COLLISION_TREE || r->collision==REB_COLLISION_LINETREE){
+        // Update tree (this will remove particles which left the box).
+        // Also done whenever a tree is in use, so that the tree (and the particle order it implies) is consistent
+        // with the particle positions at the end of every timestep, i.e. whenever a simulation can be saved or copied.
         reb_simulation_update_tree(r);          
     }
     PROFILING_STOP(PROFILING_CAT_BOUNDARY)
